@@ -45,6 +45,12 @@ Section Close.
     exists dg, so, inp, me, rl, ou, lt, sg. split; [|reflexivity]. eapply aok_same; [..|exact Ho]; reflexivity.
   Qed.
 
+  Lemma arel_put_back s s' c : arel s s' -> arel (set_nested s (c :: nested s)) (set_nested s' (c :: nested s')).
+  Proof.
+    intros (dg & so & inp & me & rl & ou & lt & sg & Ho & ->).
+    exists dg, so, inp, me, rl, ou, lt, sg. split; [|reflexivity]. eapply aok_same; [..|exact Ho]; reflexivity.
+  Qed.
+
   Lemma ap_context_close : ap (context_close fo rf).
   Proof.
     intros t dg so inp me rl ou lt sg Ho. unfold context_close.
@@ -71,7 +77,8 @@ Section Close.
     - (* MMeta *)
       destruct (run_m fo rf (set_nested t rest)) as [u s1|k p s1| |];
         destruct (run_m fo rf (ax (set_nested t rest) dg so inp me rl ou lt sg)) as [u' s1'|k' p' s1'| |];
-        cbn [ares] in *; try contradiction; auto.
+        cbn [ares] in *; try contradiction; auto;
+        [|destruct X as (<- & <- & X); repeat split; apply arel_put_back; exact X].
       destruct X as [_ (dg1 & so1 & inp1 & me1 & rl1 & ou1 & lt1 & sg1 & Ho1 & ->)].
       change (cx (ax s1 dg1 so1 inp1 me1 rl1 ou1 lt1 sg1)) with (cx s1).
       change (code (ax s1 dg1 so1 inp1 me1 rl1 ou1 lt1 sg1)) with (code s1).
@@ -131,6 +138,45 @@ Section Close.
       break_matches; cbn [res_all set_dict dbg input insn_limit meter rlog]; auto 10.
   Qed.
 
+  (* enum *)
+  Lemma ap_i_enum : ap (i_enum pr).
+  Proof. unfold i_enum, def_immediate. ap_solve1. Qed.
+
+  Lemma ap_enum_add_field nm val : ap (enum_add_field nm val).
+  Proof.
+    intros t dg so inp me rl ou lt sg Ho. unfold enum_add_field. rewrite !UnwindAuxBuild.bind_get.
+    change (flows (ax t dg so inp me rl ou lt sg)) with (flows t).
+    destruct (flows t) as [|f r]; [apply ap_fail; exact Ho|].
+    destruct f; try (apply ap_fail; exact Ho).
+    destruct (val fields) as [v|]; [|apply ap_fail; exact Ho].
+    cbv zeta. unfold bind at 1 3. unfold put.
+    match goal with |- ares (?P ?a) (?P ?b2) =>
+      change b2 with (ax a dg so inp me rl ou lt sg) end.
+    assert (X : ap (let* _ := dict_insert nm (DConst (CInt v)) in i_nested_begin)) by ap_solve1.
+    apply X. eapply aok_same; [..|exact Ho]; reflexivity.
+  Qed.
+
+  Lemma ap_m_xint c : ap (m_xint c).
+  Proof. unfold m_xint. destruct (value c); first [apply ap_ret|apply ap_fail]. Qed.
+
+  Lemma ap_i_enum_field : ap (i_enum_field fo pr rf).
+  Proof. pose proof ap_i_nested_end. pose proof ap_enum_add_field. unfold i_enum_field. ap_solve1. Qed.
+
+  Lemma ap_i_enum_field_set : ap (i_enum_field_set fo pr rf).
+  Proof.
+    pose proof ap_i_nested_end. pose proof ap_enum_add_field. pose proof ap_m_xint.
+    unfold i_enum_field_set. ap_solve1.
+  Qed.
+
+  Lemma ap_i_endenum : ap (i_endenum fo rf).
+  Proof.
+    unfold i_endenum. apply ap_bind; [apply ap_i_nested_end|intros _].
+    apply ap_get_bind; [intros; reflexivity|intros s0].
+    destruct (0 <? data_depth s0)%nat; [apply ap_fail|].
+    apply ap_bind; [apply ap_pop_flow|intros fl].
+    destruct fl as [f|]; [|apply ap_fail]. destruct f; try apply ap_fail. apply ap_i_nested_end.
+  Qed.
+
   Lemma ap_immediate_fn : forall fuel name w, immediate_fn fo pr rf fuel name = Some w -> ap w.
   Proof.
     intros fuel name w H. unfold immediate_fn in H. cbv zeta in H.
@@ -149,7 +195,8 @@ Section Close.
                     | apply ap_i_immediate | apply ap_i_local | apply ap_i_var | apply ap_i_setvar
                     | apply ap_i_nested_begin | apply ap_i_do | apply ap_i_loop
                     | apply ap_i_foreach | apply ap_i_defined | apply ap_i_const
-                    | apply ap_i_nested_end | apply ap_i_nested_inject ]
+                    | apply ap_i_nested_end | apply ap_i_nested_inject
+                    | apply ap_i_enum | apply ap_i_enum_field | apply ap_i_enum_field_set | apply ap_i_endenum ]
             | ]).
     apply Forall_nil.
   Qed.
